@@ -35,6 +35,9 @@ Faults == {
   <<"call",   TRUE,  "x =", "boom()", TRUE>>,
   <<"call",   TRUE,  "", "boom()", TRUE>>,
   <<"call",   TRUE,  "", "nosuchfn(1)", TRUE>>,
+  \* the callee's own failure text looks like a position ("line 1 of the feed ..."): the call still cites ITS line
+  <<"call",   TRUE,  "", "boomline()", TRUE>>,
+  <<"call",   TRUE,  "x =", "obj.BoomLine()", TRUE>>,
   <<"call",   TRUE,  "", "obj.Boom()", TRUE>>,
   <<"call",   TRUE,  "x =", "obj.NoSuch()", TRUE>>,
   <<"call",   TRUE,  "", "obj.In.Boom()", TRUE>>,
